@@ -169,3 +169,82 @@ Definition observe_cancels (W : world) (l : list qev) : val :=
   | Some os => L [I 1; vlist (vopt I) os]
   | None => L [I 0]
   end.
+
+(* ------------------------------------------------------------------ Simulator.__create_events_from_task_placement(_skip)
+   What the simulator does with ONE decision of the policy (inside the SCHEDULER_FINISHED handler), as a function of the
+   machine-with-queue state: the decision table over (state of the task, placed / unplaced / cancel, whether a placement event
+   of the task is pending = _future_placement_events, --drop_skipped_tasks).
+     DoScheduleNew       Task.schedule; a new TASK_PLACEMENT event (queued after all decisions were processed)
+     DoScheduleRetime    Task.schedule; the pending placement event is re-timed in place, reheapify
+     DoUnschedule time   the pending placement event (at `time`) is removed, Task.unschedule          (plan retracted / skipped)
+     DoNothing           the decision changes nothing (skip without a pending event; decision for a finished / cancelled task)
+     DoDrop              TaskGraph.cancel(task) (cascade computed by the graph code: Model/TaskGraph.v, C06 closure part)
+     DoOutside           RUNNING / PREEMPTED / EVICTED tasks (preemption and migration are outside the machine), unknown task *)
+Inductive dec := DPlace (ptime runtime : Z) | DUnplaced | DCancel.
+Inductive dout := DoScheduleNew | DoScheduleRetime | DoUnschedule (time : Z) | DoNothing | DoDrop | DoOutside.
+
+Definition decision_outcome (q : simq) (drop : bool) (t : Z) (d : dec) : dout :=
+  match s_tasks (q_sim q) t with
+  | None => DoOutside
+  | Some x =>
+      let st := t_state (t_dyn x) in
+      let cached := cancel_outcome q t in
+      let skip := if drop then DoDrop
+                  else match cached with Some p => DoUnschedule (pe_time p) | None => DoNothing end in
+      match d with
+      | DCancel => DoDrop
+      | DPlace _ _ =>
+          if task_state_ltb st TS_SCHEDULED then DoScheduleNew
+          else if task_state_eqb st TS_SCHEDULED then match cached with Some _ => DoScheduleRetime | None => DoScheduleNew end
+          else if task_state_eqb st TS_RUNNING || task_state_eqb st TS_PREEMPTED then DoOutside
+          else DoNothing
+      | DUnplaced =>
+          if task_state_ltb st TS_SCHEDULED || task_state_eqb st TS_SCHEDULED then skip
+          else if task_state_eqb st TS_RUNNING || task_state_eqb st TS_PREEMPTED then DoOutside
+          else DoNothing
+      end
+  end.
+
+(* the primitive calls of the retraction path *)
+Definition unschedule_calls (q : simq) (t : Z) : list qev :=
+  match cancel_outcome q t with
+  | Some p => [QRemove p; QSim (EUnschedule t (s_clock (q_sim q)))]
+  | None => []
+  end.
+
+Definition dout_val (o : dout) : val :=
+  match o with
+  | DoScheduleNew => L [I 1] | DoScheduleRetime => L [I 2] | DoUnschedule t => L [I 3; I t]
+  | DoNothing => L [I 4] | DoDrop => L [I 5] | DoOutside => L [I 0]
+  end.
+
+(* decisions are given with the index of the log entry BEFORE which their processing begins *)
+Fixpoint take_here (q : simq) (drop : bool) (ds : list (Z * Z * dec)) (i : Z) : list dout * list (Z * Z * dec) :=
+  match ds with
+  | [] => ([], [])
+  | (k, t, d) :: ds' =>
+      if k =? i then let '(os, r) := take_here q drop ds' i in (decision_outcome q drop t d :: os, r)
+      else ([], ds)
+  end.
+
+Fixpoint predict_decisions (W : world) (drop : bool) (q : simq) (ds : list (Z * Z * dec)) (l : list qev) (i : Z)
+  : option (list dout) :=
+  let '(os, ds') := take_here q drop ds i in
+  match ds' with
+  | [] => Some os
+  | _ :: _ =>
+      match l with
+      | [] => None
+      | e :: rest =>
+          match sq_step W q e with
+          | Some q' => match predict_decisions W drop q' ds' rest (i + 1) with Some os' => Some (os ++ os') | None => None end
+          | None => None
+          end
+      end
+  end.
+
+Definition observe_decisions (W : world) (drop : bool) (ds : list (Z * Z * dec)) (l : list qev) : val :=
+  match predict_decisions W drop sq_init ds l 0 with
+  | Some os => L [I 1; vlist dout_val os]
+  | None => L [I 0]
+  end.
